@@ -153,3 +153,50 @@ func VerifH_C20_antispamUnban() {
 	vf.Assert(!spam, "unbanned-after-silence")
 	vf.Reach("unban-checked")
 }
+
+// C20.H3c: antispam rules: the FIRST matching rule decides (its threshold, or its blocked /
+// unlimited verdict); later rules that also match do not override it.
+func VerifH_C20_antispamFirstRuleWins() {
+	mk := func(values ...any) *doif.Checker {
+		chk, err := doif.NewFromMap(map[string]any{"op": "equal", "field": "source_name", "values": values})
+		if err != nil {
+			vf.Fail("rule-construction")
+		}
+		return chk
+	}
+	first := []int{2, 3, thresholdBlocked, thresholdUnlimited}[vf.Choose("first-rule", 4)]
+	second := []int{1, 4, thresholdBlocked, thresholdUnlimited}[vf.Choose("second-rule", 4)]
+	// source "a" matches both rules, source "b" only the second one
+	o := &Options{MaintenanceInterval: verifInterval, Threshold: 10, UnbanIterations: 1,
+		Rules: Rules{{Name: "first", Threshold: first, DoIfChecker: mk("a")}, {Name: "second", Threshold: second, DoIfChecker: mk("a", "b")}}}
+	a := verifNew(o)
+	now := time.Unix(1700000000, 0)
+	src := []string{"a", "b"}[vf.Choose("source", 2)]
+	thr := first
+	if src == "b" {
+		thr = second
+	}
+	for i := 1; i <= vf.Param("K", 4); i++ {
+		spam := a.IsSpam(src, src, false, []byte("e"), now, nil)
+		want := false
+		switch thr {
+		case thresholdBlocked:
+			want = true
+		case thresholdUnlimited:
+			want = false
+		default:
+			want = i >= thr
+		}
+		if vf.Param("twin", 0) == 1 {
+			vf.Assert(spam != want, "first-matching-rule-decides")
+			continue
+		}
+		vf.Assert(spam == want, "first-matching-rule-decides")
+		if spam {
+			vf.Reach("refused")
+		}
+	}
+}
+
+// for the pipeline-level harness (the struct's fields are unexported)
+func VerifNewAntispammer(o *Options) *Antispammer { return verifNew(o) }
